@@ -76,3 +76,102 @@ func init() {
 		})
 	})
 }
+
+func standardOnly(i int, g *gspec.Grammar) []batch.Variant {
+	extra := [][]string{nil, {"-optimize-basic-latin"}, {"-nolint"}, {"-support-left-recursion"}}[i%4]
+	return []batch.Variant{{Name: "standard", Flags: append([]string{}, extra...)}}
+}
+
+func init() {
+	register("C06", func(r *Run) error {
+		return runB(r, &BSpec{
+			ID: "C06", Profiles: []string{"memo", "memo", "codeblocks"},
+			Grammars: [2]int{96, 1600}, Cases: [2]int{400, 800}, Variants: standardOnly,
+			Rule:        "grammars from profiles memo/codeblocks (pure code blocks: actions return a function of text/pos/labels, predicates a function of id and labels, faults fire on every invocation; no state blocks, no throw/recover; shared sub-rules reached from several alternatives), non-optimized parsers; rapid draws (entry, input, plan, a non-default combination of Memoize/Debug/Statistics); metamorphic relation: same success, value and code-block errors as the default-option run (which is itself tied to the reference); with Memoize: Stats.ExprCnt <= grammar expressions x (len+1) and no action runs twice at one offset; Stats.ExprCnt of the plain run equals the reference's evaluation count. Non-trivial = Memoize run with >=1 memo hit (ExprCnt lower than the plain run) or another option on a case with code-block events.",
+			Assumptions: commonAssumptions,
+		})
+	})
+	register("C16", func(r *Run) error {
+		return runB(r, &BSpec{
+			ID: "C16", Profiles: []string{"diverging", "codeblocks", "diverging", "core"},
+			Grammars: [2]int{96, 1600}, Cases: [2]int{400, 800}, Variants: plainAndOptimized,
+			Rule:        "grammars from profiles diverging (repetitions over bodies that can succeed without consuming: (e?)*, (&e)+, (!.)*) and codeblocks/core; rapid draws (entry, input, Memoize/Debug/Statistics/AllowInvalidUTF8, a budget n relative to the need N of the unbounded parse: 1, N-1, N, N+1, N/2, a fraction, 2N+7; fixed budgets for diverging cases); relations: the call returns (watchdog 20 s); n>=N => result identical to the unbounded parse; n<N or diverging => nil value and the 'max number of expressions parsed' error last; code-block events <= n and Stats.ExprCnt <= n+1; without Memoize the complete error list equals the reference's run under the same budget and Stats.ExprCnt of the unbounded run equals the reference count. Non-trivial = n<N or a diverging case.",
+			Assumptions: commonAssumptions,
+		})
+	})
+}
+
+func init() {
+	register("C10", func(r *Run) error {
+		return runB(r, &BSpec{
+			ID: "C10", Profiles: []string{"codeblocks", "stateful", "faults", "throwrecover", "stateful", "utf8"},
+			Grammars: [2]int{96, 1600}, Cases: [2]int{500, 1000},
+			Variants: func(i int, g *gspec.Grammar) []batch.Variant {
+				x := [][]string{nil, {"-optimize-basic-latin"}, {"-nolint"}, {"-support-left-recursion"}, {"-optimize-basic-latin", "-nolint"}, {"-support-left-recursion", "-optimize-basic-latin"}}[i%6]
+				return []batch.Variant{{Name: "X", Flags: append([]string{}, x...)}, {Name: "X+optimize-parser", Flags: append([]string{"-optimize-parser"}, x...)}}
+			},
+			Rule:        "grammars from the union of the profiles codeblocks/stateful/faults/throwrecover/utf8, each generated as the pair (X, X + -optimize-parser) with X cycling over the other flags; rapid draws (entry, input incl. invalid UTF-8, fault plan with errors and panics, InitState seeds, state writes from actions); relation: identical value, identical err.Error() text (whole list), identical panic behaviour and identical code-block event traces including the state/globalStore snapshots under default runtime options. Non-trivial = >=1 code-block event or >=1 error.",
+			Assumptions: append([]string{"differential: both parsers come from the same pigeon build; defects common to both are other properties' subject"}, commonAssumptions...),
+		})
+	})
+	register("C09", func(r *Run) error {
+		return runB(r, &BSpec{
+			ID: "C09", Profiles: []string{"optbait", "optbait", "codeblocks"},
+			Grammars: [2]int{96, 1600}, Cases: [2]int{500, 1000},
+			Variants: func(i int, g *gspec.Grammar) []batch.Variant {
+				// Tweak already restricted g.Entries to the protected subset of this grammar
+				alt := "-alternate-entrypoints=" + joinComma(g.Entries)
+				return []batch.Variant{{Name: "U", Flags: []string{alt}}, {Name: "O", Flags: []string{"-optimize-grammar", alt}}}
+			},
+			Tweak: func(i int, g *gspec.Grammar) {
+				// only protected rules are entry points of the optimized parser
+				ents := g.Entries
+				switch i % 3 {
+				case 1:
+					ents = ents[len(ents)/2:]
+				case 2:
+					ents = ents[:(len(ents)+1)/2]
+				}
+				first := g.Rules[0].Name
+				keep := []string{}
+				seen := map[string]bool{}
+				for _, e := range append([]string{first}, ents...) {
+					if !seen[e] {
+						seen[e] = true
+						keep = append(keep, e)
+					}
+				}
+				g.Entries = keep
+			},
+			Revariant: func(g *gspec.Grammar, old []batch.Variant) []batch.Variant {
+				alt := "-alternate-entrypoints=" + joinComma(g.Entries)
+				return []batch.Variant{{Name: "U", Flags: []string{alt}}, {Name: "O", Flags: []string{"-optimize-grammar", alt}}}
+			},
+			Rule:        "grammars from profile optbait (leaf rules referenced from several places, nested choices and sequences, adjacent literals, single-rune literal alternatives next to classes with/without i and ^, predicates, actions, labels on rule references) generated without (U) and with (O) -optimize-grammar, with different subsets of rules as -alternate-entrypoints; rapid draws (protected entry, input); relation: same success/failure, same consumed prefix, same ordered action trace (id, text, pos), final value equal in the normal form that flattens action-less nesting, drops nils and concatenates adjacent byte runs; U is additionally compared with the reference interpreter. Non-trivial = >=1 action ran and >=2 terminal attempts.",
+			Assumptions: commonAssumptions,
+		})
+	})
+	register("C15", func(r *Run) error {
+		return runB(r, &BSpec{
+			ID: "C15", Grammars: [2]int{48, 600}, Cases: [2]int{60, 120},
+			Gen: func(r *Run, i int, seed int) *gspec.Grammar { return gspec.ClassGrammarGen(40).Example(seed) },
+			Variants: func(i int, g *gspec.Grammar) []batch.Variant {
+				x := [][]string{nil, {"-optimize-parser"}}[i%2]
+				return []batch.Variant{{Name: "general", Flags: append([]string{}, x...)}, {Name: "basic-latin", Flags: append([]string{"-optimize-basic-latin"}, x...)}}
+			},
+			Rule:        "grammars of 40 single-class entry rules drawn by rapid (any mix of characters, ranges - also straddling case boundaries or descending -, Unicode classes, ^, i), generated without and with -optimize-basic-latin; per drawn class ALL 128 Basic Latin runes (exhaustive), 64 fixed + 4 drawn non-ASCII runes, the empty input and 5 invalid byte sequences are parsed by both parsers (AllowInvalidUTF8); relation: identical match/no-match and value; both are also compared with the definition of class membership. Non-trivial = class with >=2 member kinds or a flag; evaluations counts single parses.",
+			Assumptions: append([]string{"exhaustive only over the 128 Basic Latin runes of every drawn class; classes themselves are sampled"}, commonAssumptions...),
+		})
+	})
+}
+
+func joinComma(s []string) string {
+	out := ""
+	for i, x := range s {
+		if i > 0 {
+			out += ","
+		}
+		out += x
+	}
+	return out
+}
